@@ -10,7 +10,12 @@ import (
 	"verif/harness/kit"
 )
 
-var litVocab = []string{"a", "api", "v1", "x-y", "v.1", "~u", "a_b", "..a", "a..", "...", "0", "Pets"}
+// literal segments: mostly unreserved characters; the last ones need escaping on the wire (a blank, a non-ASCII letter) or
+// are reserved characters that may stand in a path as they are
+var patLitVocab = []string{"a", "api", "v1", "x-y", "v.1", "~u", "a_b", "..a", "a..", "...", "0", "Pets", "my api", "ü", "a:b", "a@b", "(1)", "a;b=c"}
+
+// a base path is URL text: it may also spell its own text with percent-escapes
+var litVocab = append(append([]string{}, patLitVocab...), "50%25", "my%20api")
 
 // hostile path values (DESIGN.md section 3) plus values that spell placeholders and URL syntax
 var hostileVals = []string{"", "", "a", "x y", "a/b", "a?b", "a#b", "100%", "%2F", "%25", "%zz", "..", ".", "...", "{p0}", "{p1}", "{p2}", "{p3}", "{q0}", "{q1}",
@@ -74,7 +79,7 @@ func genPattern(t *rapid.T, maxSeg int) (string, []PV) {
 	for i := 0; i < n && next <= 4; i++ {
 		switch rapid.IntRange(0, 9).Draw(t, "segkind") {
 		case 0, 1, 2, 3:
-			segs = append(segs, rapid.SampledFrom(litVocab).Draw(t, "patlit"))
+			segs = append(segs, rapid.SampledFrom(patLitVocab).Draw(t, "patlit"))
 		case 4, 5, 6, 7, 8:
 			segs = append(segs, ph())
 		default: // in-segment placeholders
